@@ -6,6 +6,11 @@ ids=[p['id'] for p in props]
 claimed={
  'C01': ("exploration", "Seeded search over histories (8-60 operations on all watched kinds), informer lag/interleavings, batch contents and map iteration orders; at every quiescent point the normal form of the files written by the long-running real controller is compared with the one of a fresh controller on the same stores, and the running SimHAProxy with the files. A clean batch is evidence, not proof; this is the level a history-quantified property over an unbounded input space admits.", "3 C01", "deterministic simulation: real controller under synctest vs SimKube/SimDisk/SimHAProxy; fresh-controller differential oracle on a behavioural normal form"),
  'C05': ("exploration", "Seeded search over lag-free histories with 0/1/3/8 backend shards, biased to full syncs, deletions and reverted changes; after every completed update every *.cfg and every referenced file is compared with a fresh controller's, section by section (duplicates and stale sections are witnesses).", "3 C05", "deterministic simulation; per-update differential oracle against a fresh controller over all files HAProxy would load"),
+ 'C02': ("exploration", "Seeded histories of endpoint, weight, readiness, certificate and configuration changes applied through the real dynamic updater to SimHAProxy, with and without socket faults on individual runtime commands; after every update that did not reload, and at every quiescent point, the running state (loaded configuration + runtime edits) is compared with what loading the files just written would give.", "3 C02", "deterministic simulation with socket fault injection; running-state vs files differential oracle"),
+ 'C11': ("exploration", "Seeded histories of (a) spurious re-notifications and content-neutral updates, (b) endpoint churn under dynamic scaling; a capacity model fed only by the generated configuration decides whether a reload was needed, and every loaded configuration is checked for slots-min-free / slots-increment.", "3 C11", "deterministic simulation; reload counting against a reference capacity model"),
+ 'C12': ("exploration", "Seeded histories with socket, reload and certificate-read faults injected at each failure point of an update, once or repeatedly; then faults stop, no further cluster change happens, and within the documented retry bound the files must equal a fresh controller's and the running HAProxy must equal the files (bounded liveness).", "3 C12", "deterministic simulation with fault injection; bounded-time convergence oracle after the last fault"),
+ 'C13': ("exploration", "The real limiters and queues (client-go delaying queue, controller-runtime worker) on the fake clock, driven with arrival patterns generated relative to the interval; spacing, coalescing and bounded-wait oracles over the recorded start times.", "3 C13", "deterministic simulation on a fake clock; timestamp-history oracles"),
+ 'C14': ("exploration", "The real watchers driven by cooperative tasks whose interleaving the tape decides at statement granularity; conservation, porcupine linearizability against an accumulator model, ConfigMap chaining and class-transition oracles.", "3 C14", "deterministic simulation with a cooperative scheduler; linearizability checking (porcupine)"),
  'C07': ("exploration", "Every configuration written in every simulated history (including partially synced, lagging and multi-owner states) is parsed as `haproxy -f <dir>` would and analysed for dangling or duplicated references; SimHAProxy's loader records the same at each reload.", "3 C07", "deterministic simulation; reference-integrity analysis of every written configuration"),
 }
 na={
